@@ -11,6 +11,21 @@ Definition consistent_axes (arrs : list aspec) : Prop :=
   forall sp1 sp2 k x y, In sp1 arrs -> In sp2 arrs -> aname sp1 = aname sp2 ->
     nth_error (axes sp1) k = Some (Some x) -> nth_error (axes sp2) k = Some (Some y) -> x = y.
 
+Lemma axes_agree_nth l1 : forall l2 k x y, axes_agree l1 l2 = true ->
+  nth_error l1 k = Some (Some x) -> nth_error l2 k = Some (Some y) -> x = y.
+Proof.
+  induction l1 as [|a l1 IH]; intros [|b l2] [|k] x y H H1 H2; cbn in H1, H2; try discriminate.
+  - injection H1 as ->. injection H2 as ->. cbn in H. apply andb_true_iff in H as [H _]. now apply str_eqb_eq.
+  - apply (IH l2 k x y); [|exact H1 | exact H2]. destruct a, b; cbn in H; try exact H. now apply andb_true_iff in H as [_ H].
+Qed.
+
+Lemma consistent_axesb_ok arrs : consistent_axesb arrs = true -> consistent_axes arrs.
+Proof.
+  unfold consistent_axesb. intros H sp1 sp2 k x y H1 H2 Hn K1 K2. rewrite forallb_forall in H.
+  specialize (H sp1 H1). rewrite forallb_forall in H. specialize (H sp2 H2).
+  rewrite Hn, str_eqb_refl in H. cbn in H. exact (axes_agree_nth _ _ k x y H K1 K2).
+Qed.
+
 Lemma merge_axes_nth_new old : forall new k x,
   nth_error new k = Some (Some x) -> nth_error (merge_axes old new) k = Some (Some x).
 Proof.
